@@ -8,13 +8,25 @@ def create_diff(original_lines: list[str], new_lines: list[str]) -> str:
     return difflines_to_str(diff_lines)
 
 
+def split_on_newlines(text: str) -> list[str]:
+    """
+    Split `text` into lines on "\n" only, keeping the line ends.
+
+    Unified diffs are line-oriented on "\n". `str.splitlines` also breaks lines at
+    form feeds, lone carriage returns and other separators, which would show up in
+    the diff as lines that do not exist in the file.
+    """
+    pieces = text.split("\n")
+    return [piece + "\n" for piece in pieces[:-1]] + ([pieces[-1]] if pieces[-1] else [])
+
+
 def create_diff_from_tree(original_tree: cst.Module, new_tree: cst.Module) -> str:
     """
     Create a diff between the original and output trees.
     """
     return create_diff(
-        original_tree.code.splitlines(keepends=True),
-        new_tree.code.splitlines(keepends=True),
+        split_on_newlines(original_tree.code),
+        split_on_newlines(new_tree.code),
     )
 
 
